@@ -1,6 +1,7 @@
 package main
 
 import (
+	"regexp"
 	"fmt"
 	"strconv"
 	"go/token"
@@ -707,6 +708,13 @@ func (fr *frame) applyContract(d *Decl, callee *ssa.Function, sig *types.Signatu
 			// ghost counters are per activation: what the callee's counters end at says nothing about the caller's
 			// (effects on the caller's ghost state are declared with ghost-set)
 			vc.note("ensures[" + c.Label + "] of " + key + " speaks about the callee's ghost counters: not assumed by callers")
+			continue
+		}
+		// names bound by the callee's own `bind` clauses (results of calls it makes) exist in the callee's activation only;
+		// a clause that mentions one - also just as called(x), which would otherwise read as false here, or as the caller's
+		// bind of the same name - is not assumed
+		if n := mentionsBindName(d, c.Text); n != "" {
+			vc.note("ensures[" + c.Label + "] of " + key + " speaks about " + n + ", a call the callee makes: not assumed by callers")
 			continue
 		}
 		f, ok := post.tryBool(c.E)
@@ -2124,4 +2132,24 @@ func isDoneOfGivenContext(ch ssa.Value) bool {
 		return v.Op == token.MUL && isFree
 	}
 	return false
+}
+
+// mentionsBindName: the first name bound by one of d's `bind` clauses that occurs as an identifier in text ("" if none)
+func mentionsBindName(d *Decl, text string) string {
+	for _, b := range d.Get("bind") {
+		lhs := b.Text
+		if i := strings.Index(lhs, "="); i >= 0 {
+			lhs = lhs[:i]
+		}
+		for _, n := range strings.Split(lhs, ",") {
+			n = strings.TrimSpace(n)
+			if n == "" || n == "_" {
+				continue
+			}
+			if regexp.MustCompile(`(^|[^A-Za-z0-9_.$])` + regexp.QuoteMeta(n) + `($|[^A-Za-z0-9_(])`).MatchString(text) {
+				return n
+			}
+		}
+	}
+	return ""
 }
